@@ -200,10 +200,15 @@ def h_desc(ctx):
         want = []
         align = 4 if cls == 32 else 8
         for i, (ptype, dsz) in enumerate(cfg['props']):
-            pt = ptype if ptype is not None else ctx.uint('pt%d' % i, 32)
+            pt = ptype if ptype not in (None, 'proc') else ctx.uint('pt%d' % i, 32)
             if ptype is None:
                 # a type the library has no special case for
                 ctx.assume(ctx.land(pt != 1, pt != 2, pt < 0xc0000000))
+            elif ptype == 'proc':
+                # a processor-specific type that no registry defines (and that therefore has no known payload format): raw bytes,
+                # whatever their number
+                known = sorted({v for n in REG.registry() if n.startswith('GNU_PROPERTY_') for v in REG.values(n) if v >= 0xc0000000})
+                ctx.assume(ctx.land(pt >= 0xc0000000, *[pt != v for v in known]))
             data = ctx.bytes('pd%d' % i, dsz)
             desc += enc.enc_int(pt, 4, little) + enc.enc_int(dsz, 4, little) + data
             desc += [0] * (enc.roundup(len(desc), align) - len(desc))
@@ -357,7 +362,7 @@ def _desc_instances(tier):
             out.append(dict(little=little, elfclass=cls, kind='buildid', len=ln))
         out.append(dict(little=little, elfclass=cls, kind='gold', len=5))
         for props in ([], [(None, 0)], [(None, 3)], [(None, 4), (None, 8)], [(1, 4 if cls == 32 else 8)], [(0xc0000002, 4)], [(0xc0000000, 4), (None, 1)],
-                      [(0xc0008002, 4), (0xc0010001, 4)], [(2, 0)]):
+                      [(0xc0008002, 4), (0xc0010001, 4)], [(2, 0)], [('proc', 16)], [('proc', 4), (0xc0000000, 4)], [('proc', 3)]):
             out.append(dict(little=little, elfclass=cls, kind='prop', props=props))
         for m in ('EM_X86_64', 'EM_386'):
             out.append(dict(little=little, elfclass=cls, kind='prpsinfo', machine=m))
